@@ -28,7 +28,7 @@ ASSUMPTIONS = ["characters outside the token alphabets behave like their class r
                "letter at length<=2; non-ASCII by UTF-8 length class; each escape shape is one letter)",
                "the host is exempt from the per-character clauses (only 'pure ASCII' is checked there), as the statement says"]
 
-FULL = A.ASCII + A.UNI + A.SURR + A.ESC
+FULL = A.ASCII + A.LATIN1_HIGH + A.UNI + A.SURR + A.ESC
 CLSX = A.CLS + A.UNI + A.SURR + A.ESC
 CORE = A.CORE + ["\ud800"]
 
